@@ -81,6 +81,14 @@ ID_ALPHABETS = {
     'long': (['L%d_' % i + 'x' * (30 + 11 * (i % 5)) + ('y' * 260 if i == 3 else '')
               for i in range(1, 26)],
              ['M%d_' % i + 'z' * (20 + 7 * (i % 4)) for i in range(1, 26)]),
+    # ids that differ from each other only in leading / trailing whitespace
+    'ws': ([' lead', 'lead', 'trail ', 'trail', ' both ', 'both', 'tab\t',
+            'tab', '\tx', 'x', 'in ner', 'inner', '  two', 'two', ' ', '  ',
+            'O1', ' O1', 'O1 ', 'O2\t', 'O2', 'a b ', 'a b', ' a b', 'nb\xa0',
+            'nb'],
+           [' s', 's', 's ', ' s ', 'S1', 'S1 ', ' S1', 'S2\t', 'S2', '\tS2',
+            's s', ' s s', 's s ', 't', 't ', ' t', '\t', ' \t', 'u\xa0', 'u',
+            'v  ', 'v', '  v', 'w w', ' w w ']),
     'natsort': (['a10', 'a2', 'a1.5', 'b1', 'A3', '10', '9', '1.10', '1.9',
                  'x', 'a', 'a01', 'a1', 'z9z1', 'z9z10', 'z10z1', '2b', '2a',
                  '07', '7', 'a-1', 'a.1', 'a_1', '1e3', 'b'],
@@ -91,7 +99,8 @@ ID_ALPHABETS = {
 }
 # alphabets usable where the text travels through TSV / HDF5 / mapping files
 TSV_SAFE = ('ascii', 'num', 'punct', 'slash', 'unicode', 'long', 'natsort')
-H5_SAFE = ('ascii', 'num', 'punct', 'slash', 'unicode', 'long', 'natsort')
+H5_SAFE = ('ascii', 'num', 'punct', 'slash', 'unicode', 'long', 'natsort',
+           'ws')
 
 
 def id_pool(alpha, axis):
